@@ -58,8 +58,9 @@ claim('C12', 'Proof, on the real cli.common.parse_filters CUT at `filter_id_conf
       'configurations of 1..3 filters with symbolic ids, hosts, topics and ports: ids pairwise different (else rejected), automatic tcp outputs >= max(explicit ports)+2, 2 apart, never '
       'overlapping each other or a user-given port pair, the rewritten source carries the same port / ipc name as the output it binds and exactly one filter binds it, topic/option/ephemeral '
       'suffixes preserved, explicit addresses passed through. The whole function incl. argument parsing is covered by a BOUNDED native enumeration only (labelled bounded).', '6-C12')
-_todo = 'check not built yet in this session (planned, see DESIGN.md section 6); not claimed until its obligations are discharged'
-for _p in ('C11',):
-    NA[_p] = _todo
+claim('C11', 'Proof, over ropes of literals and opaque tokens, that the real Filter.parse_topics and Filter.parse_options are the inverse of rendering for lists of 0..3 topic '
+      'mappings / options of every kind (same, a>b, empty, >b, a>, flag, no-flag, name=json, name=text, whitespace variation, a "!" inside a password), and that the real base '
+      'Filter.normalize_config is idempotent and maps the comma-text form and the list form to the same result (0..3 sources, mq_log / exit_after / extra_metrics forms). The other nine '
+      'filter classes (Util, Recorder, VideoIn, VideoOut, ImageIn, ImageOut, MQTTOut, REST, Webvis) are covered only by a BOUNDED native check on documented-grammar configurations.', '6-C11')
 NA['C06'] = ('liveness under fairness and bounded-time recovery across several processes: not expressible as pre/postconditions or invariants of one call; '
              'termination is not proved by this verifier (DESIGN.md section 7); its safety ingredients are proved under C02/C04/C05')
